@@ -16,8 +16,175 @@ import time
 import common as C
 import gen as G
 
-THEOREMS = ['type_of_form_of', 'depth_queries_agree', 'minmax_is_value_depth', 'form_json_roundtrip',
-            'type_print_parse_roundtrip', 'to_list_typed', 'getitem_range_preserves_type']
+THEOREMS = ['type_of_form_of',
+            'depth_queries_agree',
+            'minmax_is_value_depth',
+            'form_json_roundtrip',
+            'type_print_parse_roundtrip',
+            'to_list_typed',
+            'getitem_range_preserves_type',
+            'type_parse_printable',
+            'printable_key_ok',
+            'printable_iff_roundtrip',
+            'type_roundtrip_exact',
+            'not_printable_no_roundtrip',
+            'type_parse_print_parse',
+            'type_tostring_injective',
+            'array_type_printable',
+            'array_type_roundtrip',
+            'json_print_parse_x',
+            'json_roundtrip_x',
+            'string_parameters_parse_x',
+            'type_print_parse_roundtrip_x_thm',
+            'printable_x_extends_thm',
+            'type_tostring_injective_x_thm',
+            'array_type_roundtrip_x_thm',
+            'type_parse_x_agrees_thm',
+            'json_parse_top_img_thm',
+            'params_parse_img_thm',
+            'printable_x_iff_thm',
+            'type_parse_x_img_thm',
+            'printable_x_exact_thm',
+            'printable_x_key_ok_thm',
+            'printable_x_characterised_thm',
+            'form_json_ok',
+            'form_text_roundtrip',
+            'form_text_injective',
+            'array_form_wf',
+            'array_form_json_roundtrip',
+            'array_form_text_roundtrip',
+            'array_form_text_injective',
+            'form_roundtrip_characterised',
+            'form_json_injective',
+            'form_json_verbose_compact',
+            'form_roundtrip_iff_wf',
+            'form_roundtrip_idempotent',
+            'form_type_commutes_with_fromjson',
+            'form_loose_roundtrip',
+            'form_wf_loose_contains_wf',
+            'form_canon_is_wf',
+            'form_noncanonical_format_counterexample',
+            'form_fromjson_image',
+            'form_fromjson_wf_iff',
+            'form_fromjson_reprint_iff',
+            'fromjson_node_ext',
+            'fromjson_member_order',
+            'fromjson_extra_member',
+            'fromjson_duplicate_member',
+            'str2form_prefix',
+            'str2form_empty_string_is_i8',
+            'get_iform_preset_agrees',
+            'has_identifier_wins',
+            'fromjson_meta_defaults',
+            'getitem_at_type',
+            'elements_match_items',
+            'item_types_total',
+            'no_items_no_elements',
+            'empty_array_items',
+            'unknown_type_no_elements',
+            'list_of_unknown_all_empty',
+            'option_of_unknown_all_none',
+            'carry_preserves_rtype',
+            'getitem_range_preserves_rtype',
+            'getitem_range_preserves_typestring',
+            'carry_preserves_item_types',
+            'carry_preserves_form',
+            'type_of_form_ignores_norm',
+            'item_types_ignores_norm',
+            'crange_numpy_shape',
+            'carry_numpy_shape',
+            'crange_numpy_total',
+            'crange_regular_size',
+            'carry_len',
+            'crange_len',
+            'range_slice',
+            'getitem_field_type',
+            'getitem_fields_type',
+            'getitem_field_typed_values',
+            'getitem_field_iff',
+            'getitem_at_model_is_carry',
+            'getitem_at_model_type',
+            'getitem_at_model_elem',
+            'getitem_at_model_oob',
+            'getitem_field_elements_typed',
+            'field_projection_typed',
+            'list_element_is_array',
+            'numpy_element_is_array',
+            'range_then_at',
+            'none_only_if_type_allows',
+            'unmasked_none_never_hit',
+            'option_element',
+            'indexed_element',
+            'union_element',
+            'record_element',
+            'getitem_range_model_is_carry',
+            'getitem_range_model_type',
+            'getitem_range_model_total',
+            'getitem_field_rtype',
+            'string_element',
+            'getitem_field_model_type',
+            'getitem_fields_model_type',
+            'carry_preserves_form_exact',
+            'second_slice_form_exact',
+            'getitem_fields_rtype',
+            'items_cover_type',
+            'items_sound',
+            'items_sandwich',
+            'relax_only_forgets',
+            'valid_leaf_type_has_no_array_param',
+            'purelist_depth_form_eq_type',
+            'minmax_depth_form_eq_type',
+            'branch_depth_form_eq_type',
+            'purelist_isregular_form_eq_type',
+            'field_queries_type_then_form',
+            'field_queries_form_eq_type_exact',
+            'field_lookup_content_eq_form',
+            'queries_content_eq_form_eq_type',
+            'record_key_of_fieldindex',
+            'record_fieldindex_of_key',
+            'tuple_key_fieldindex_roundtrip',
+            'form_keys_have_key',
+            'form_numfields_is_number_of_keys',
+            'queries_agree_with_nested_list_value',
+            'numfields_is_number_of_keys_layout',
+            'minmax_depth_min_le_max',
+            'minmax_depth_min_le_max_layout',
+            'pure_list_depth_queries_coincide',
+            'purelist_depth_positive_without_union',
+            'minmax_depth_layout_eq_type',
+            'minmax_depth_type_eq_erased',
+            'core_minmax_eq_minmax_ty_partial',
+            'minmax_depth_layout_eq_core_type',
+            'pure_layout_depth_queries',
+            'purelist_depth_is_exact_leaf_depth',
+            'listed_keys_are_in_every_record',
+            'layout_keys_have_key',
+            'field_queries_content_eq_type_exact',
+            'purelist_depth_positive_layout',
+            'not_branching_minmax_partial',
+            'not_branching_minmax_layout_partial',
+            'form_key_is_keys_entry',
+            'type_keys_answers_iff_form_reaches_record',
+            'key_names_field_of_every_record',
+            'fieldindex_is_position_in_every_record',
+            'purelist_depth_is_exact_depth_with_unions',
+            'lark_fragment_printable',
+            'lark_print_parse_roundtrip',
+            'lark_print_parse_roundtrip_full',
+            'lark_print_parse_some_mode',
+            'lark_agrees_with_type_parse',
+            'lark_finding_empty_record_or_union',
+            'lark_finding_highlevel_arraytype',
+            'lark_finding_dtype_not_in_grammar',
+            'lark_finding_string_escapes',
+            'lark_print_parse_roundtrip_categorical',
+            'lark_fragment_categorical_extends',
+            'lark_lowlevel_never_arraytype',
+            'lark_parameters_text_roundtrip',
+            'lark_print_parse_roundtrip_parameters',
+            'lark_print_parse_parameters_some_mode',
+            'lark_fragment_parameters_extends',
+            'lark_fragment_parameters_extends_categorical']
 DRIVERS = ('typedrv',)
 NEEDS_SAN = True
 COQ_DIR = os.path.join(C.VERIF, 'c17', 'coq')
